@@ -736,7 +736,8 @@ def converter_rule(repo, rid, targets, identity, floor):
     from ..truthtable import Evaluator, counterexample, show
     res = RuleResult(rid, 'every case of a normal-form conversion returns a term with the truth table of the case it matched', floor=floor)
     for rel, name in targets:
-        f = repo.func(rel, name)
+        from ..inline import inlined
+        f = inlined(repo.func(rel, name), lambda h: h.parent is not None and h.name not in identity)[0]     # a case may be written once as a local helper
         ev = Evaluator(f.node, f.params()[0], identity).run()
         need(ev.cases, '%s: no case of %s could be analysed' % (rel, name))
         for ln, facts, pat, val in ev.cases:
